@@ -22,7 +22,7 @@ enum Phase {
     FailFor(u64),
 }
 
-fn bits_str(items: &[Indexed<bool>]) -> String {
+pub(crate) fn bits_str(items: &[Indexed<bool>]) -> String {
     if items.is_empty() {
         return "b-".into();
     }
@@ -44,7 +44,7 @@ fn bits_str(items: &[Indexed<bool>]) -> String {
     )
 }
 
-fn regs_str(items: &[Indexed<u16>]) -> String {
+pub(crate) fn regs_str(items: &[Indexed<u16>]) -> String {
     if items.is_empty() {
         return "g-".into();
     }
@@ -112,7 +112,7 @@ impl Completion {
     }
 }
 
-fn res_str<T>(r: Result<T, RequestError>, f: impl Fn(T) -> String) -> String {
+pub(crate) fn res_str<T>(r: Result<T, RequestError>, f: impl Fn(T) -> String) -> String {
     match r {
         Ok(v) => format!("ok.{}", f(v)),
         Err(e) => req_err(e),
